@@ -398,7 +398,7 @@ def _eval_opt(case):
         for i in range(0, case["n"] - 2, 2):
             z = [tr[i][2][k] + tr[i + 2][2][k] - 2.0 * tr[i + 1][2][k] for k in range(2)]
             for sp, ty in ((spec_a, "tern"), (spec_n, "numtern")):
-                sp["edges"].append({"type": ty, "ids": [i, i + 2, i + 1], "z": z, "om": [[3.0, 0.5], [0.5, 2.0]]})
+                sp["edges"].append({"type": ty, "ids": [i, i + 2, i + 1], "z": z, "om": [[300.0, 50.0], [50.0, 200.0]]})
     results = []
     for spec, numeric in ((spec_a, False), (spec_n, True)):
         g, verts, edges = GB.build(spec, with_graph=False)
